@@ -11,7 +11,14 @@ tie  : Gen_Resolve.v regenerated from the source (transport table, defaults, mag
        direct _build_open_cmd in generated orders) through the real open() of every transport with the connect
        entry points replaced by recorders; every recorded spawn / socket / auth / asyncssh.connect call — absent
        keywords resolved the way the library resolves them — against what THAT driver reports; the system
-       histories and the asyncssh keywords also against model/OpenHist.v by vm_compute."""
+       histories and the asyncssh keywords also against model/OpenHist.v by vm_compute.  Histories in which 2-3
+       drivers are constructed with ONE transport_options object (or distinct dicts holding the same inner
+       objects; equal-but-distinct copies as control), for system / paramiko / asyncssh, opened in every order:
+       same oracle + the user's transport_options object is, deep-compared, what it was at construction after
+       every operation + the user's own options are in the call; the asyncssh ones also against OpenHist.v
+       as_run (objects with the address of the user dict they hold)."""
+import copy
+import itertools
 import json
 import os
 import re
@@ -238,7 +245,12 @@ def kwargs_of(root, c):
     if c["port"] != "omit":
         kw["port"] = py_value(root, c["port"])
     if c["extra"] is not None:
-        kw["transport_options"] = {"open_cmd": c["extra"]}
+        kw["transport_options"] = {"open_cmd": copy.deepcopy(c["extra"])}     # the case stays what it is
+    if c.get("topts") is not None:
+        # a whole transport_options dict (dial suite); its open_cmd entry, if any, is what `extra` says
+        if c["topts"].get("open_cmd") != c["extra"]:
+            raise ValueError("case: topts['open_cmd'] and extra differ: %r" % (c,))
+        kw["transport_options"] = copy.deepcopy(c["topts"])
     return kw
 
 
@@ -784,9 +796,25 @@ Definition chk_kw (c : base_targs * plugin_targs * conn_kwargs * lib_env * (str 
   let k := asyncssh_kwargs b p in
   oseq (k_host k) (k_host seen) && oneq (k_port k) (k_port seen) && oseq (k_user k) (k_user seen)
   && let '(mh, mp, mu) := lib_resolve l seen in beq mh rh && (mp =? rp) && beq mu ru.
+Definition kw_beq (a b : conn_kwargs) : bool :=
+  oseq (k_host a) (k_host b) && oneq (k_port a) (k_port b) && oseq (k_user a) (k_user b).
+Fixpoint heap_beq (a b : uheap) : bool :=
+  match a, b with [], [] => true | x :: a', y :: b' => kw_beq x y && heap_beq a' b' | _, _ => false end.
+Fixpoint conns_beq (a b : list (nat * conn_kwargs)) : bool :=
+  match a, b with
+  | [], [] => true
+  | (i, x) :: a', (j, y) :: b' => Nat.eqb i j && kw_beq x y && conns_beq a' b'
+  | _, _ => false
+  end.
+(* asyncssh objects with the address of the user dict each holds, the dicts at construction, the opens that reached
+   connect, the dicts afterwards, the host / port / username keywords of the recorded connect calls *)
+Definition chk_as (c : list as_obj * uheap * list nat * uheap * list (nat * conn_kwargs)) : bool :=
+  let '(objs, hp, opens, hp1, seen) := c in
+  let '(h, ev) := as_run as_open objs hp opens in heap_beq h hp1 && conns_beq ev seen.
 Definition chk_dial (c : (list sys_obj * list hop * list (nat * list str))
-                         + (base_targs * plugin_targs * conn_kwargs * lib_env * (str * N * str))) : bool :=
-  match c with inl h => chk_hist h | inr k => chk_kw k end.
+                         + ((base_targs * plugin_targs * conn_kwargs * lib_env * (str * N * str))
+                            + (list as_obj * uheap * list nat * uheap * list (nat * conn_kwargs)))) : bool :=
+  match c with inl h => chk_hist h | inr (inl k) => chk_kw k | inr (inr a) => chk_as a end.
 """
 
 
@@ -892,6 +920,114 @@ def structured_histories():
     return out
 
 
+# transport_options a site passes for a whole inventory, per transport that reads them (system: open_cmd, ptyprocess;
+# paramiko: enable_rsa2; asyncssh: the asyncssh dict) — none of them names a host / port / user / key / file
+SHARE_MODES = ("same", "inner", "copies")
+SHARED_TOPTS = {
+    "system": [{"open_cmd": ["-o", "KexAlgorithms=+diffie-hellman-group14-sha1"], "ptyprocess": {"rows": 24, "cols": 132}},
+               {"ptyprocess": {"echo": False}}],
+    "paramiko": [{"enable_rsa2": True}],
+    "asyncssh": [{"asyncssh": {"kex_algs": ["ecdh-sha2-nistp256"], "encryption_algs": ["aes256-ctr"], "keepalive_interval": 30}},
+                 {"asyncssh": {}}],
+    "telnet": [{"site": {"rack": "b2"}}],
+    "asynctelnet": [{"site": {"rack": "b2"}}],
+}
+ASYNCSSH_OPT_POOL = [("kex_algs", ["ecdh-sha2-nistp256"]), ("encryption_algs", ["aes256-ctr", "aes128-ctr"]),
+                     ("mac_algs", ["hmac-sha2-256"]), ("keepalive_interval", 30), ("login_timeout", 20),
+                     ("agent_path", "/nonexistent/agent.sock"), ("compression_algs", ["none"])]
+
+
+def with_topts(c, topts):
+    d = dict(c)
+    d["topts"] = copy.deepcopy(topts)
+    d["extra"] = d["topts"].get("open_cmd")
+    return d
+
+
+def shared_devs(t):
+    """three devices of one inventory: differ in host, port, username, key, strictness / known-hosts and config"""
+    return [full_case({"transport": t, "host": "core-sw.example.net", "port": 22, "user": "admin", "strict": False}),
+            full_case({"transport": t, "host": "10.0.0.1", "port": 2222, "user": "netops", "key": "$FX/key1", "strict": False}),
+            full_case({"transport": t, "host": "r1", "user": "", "strict": True, "kh": "$FX/kh1",
+                       "cfg": "$FX/cfgs/c1" if t in LIBRARY else False})]
+
+
+def shared_histories():
+    """2-3 drivers constructed with the SAME transport_options object ("same"), with distinct outer dicts holding the
+    same inner objects ("inner": dict(defaults) / **defaults), and with equal-but-distinct copies ("copies", the
+    control) — for every transport that reads transport_options, opened in every order, then the first one opened is
+    closed and opened again (after all the others have been through open())"""
+    out = []
+    for t in ("system", "paramiko", "asyncssh"):
+        for topts in SHARED_TOPTS[t]:
+            for n in (2, 3):
+                objs = [with_topts(c, topts) for c in shared_devs(t)[:n]]
+                perms = list(itertools.permutations(range(n)))
+                for mode in SHARE_MODES:
+                    for order in (perms if mode != "copies" else [perms[0], perms[-1]]):
+                        ops = [["open", i] for i in order] + [["close", order[0]], ["open", order[0]]]
+                        out.append({"objects": objs, "ops": ops, "share": [[mode, list(range(n))]]})
+    return out
+
+
+def gen_shared_history(rng, root):
+    """random neighbours of the above: any transport, random devices and option dicts, all or two of three objects in
+    the group, shuffled opens then random close / re-open"""
+    t = rng.choice(["asyncssh"] * 3 + ["system"] * 2 + ["paramiko"] * 2 + ["telnet", "asynctelnet"])
+    n = rng.choice([2, 2, 3])
+    if t == "asyncssh" and rng.random() < 0.7:
+        topts = {"asyncssh": dict(rng.sample(ASYNCSSH_OPT_POOL, rng.randint(0, 4)))}
+    elif t == "system" and rng.random() < 0.5:
+        topts = {"open_cmd": rng.choice([["-v"], "-4", ["-o", "ProxyCommand=none"], ["-o", "Ciphers=aes256-ctr", "-C"]])}
+        if rng.random() < 0.5:
+            topts["ptyprocess"] = {"rows": rng.choice([24, 80]), "cols": rng.choice([80, 256])}
+    else:
+        topts = rng.choice(SHARED_TOPTS[t])
+    objs = []
+    for _ in range(n):
+        c = gen_dial_obj(rng, root, t)
+        c["extra"] = None
+        objs.append(with_topts(c, topts))
+    members = list(range(n))
+    if n == 3 and rng.random() < 0.3:
+        members = sorted(rng.sample(members, 2))
+    rng.shuffle(members)                       # the first member's object is the one the others are given
+    mode = rng.choice(["same"] * 9 + ["inner"] * 7 + ["copies"] * 4)
+    order = list(range(n))
+    rng.shuffle(order)
+    ops = [["open", i] for i in order]
+    is_open = set(order)
+    for _ in range(rng.randint(0, 2 * n)):
+        i = rng.randrange(n)
+        if i in is_open:
+            ops.append(["close", i])
+            is_open.discard(i)
+        else:
+            ops.append(["open", i])
+            is_open.add(i)
+    return {"objects": objs, "ops": ops, "share": [[mode, members]]}
+
+
+def user_options(root, h):
+    """the transport_options OBJECT each constructor is handed (None = argument omitted).  h["share"] = [[mode,
+    [members]]]: "same" = the members are given ONE dict object (the first member's), "inner" = each its own outer dict
+    whose values are the SAME objects, "copies" = equal but distinct deep copies (what every object gets anyway)"""
+    outs = [kwargs_of(root, c).get("transport_options") for c in h["objects"]]
+    for mode, members in h.get("share", []):
+        if (mode not in SHARE_MODES or len(set(members)) != len(members) or not members
+                or not all(isinstance(m, int) and 0 <= m < len(outs) for m in members)):
+            raise ValueError("history: bad share group %r" % ((mode, members),))
+        first = outs[members[0]]
+        if first is None or any(outs[m] != first for m in members):
+            raise ValueError("history: share group %r over objects without / with different transport_options" % (members,))
+        for m in members[1:]:
+            if mode == "same":
+                outs[m] = first
+            elif mode == "inner":
+                outs[m] = dict(first)
+    return outs
+
+
 def reported_of(d):
     return {"host": d.host, "port": d.port, "user": d.auth_username, "key": d.auth_private_key,
             "strict": d.auth_strict_key, "cfg": d.ssh_config_file, "kh": d.ssh_known_hosts_file}
@@ -909,17 +1045,27 @@ def held_of(d):
             "cfg": pta.ssh_config_file, "kh": pta.ssh_known_hosts_file, "extra": [ex] if isinstance(ex, str) else list(ex)}
 
 
-def run_history(root, h, loop):
+def run_history(root, h, loop, users_out=None):
     """-> (steps, drivers) ; must run inside dial.patched().  A step = one operation on one object with the
-    records the recorders made during it and what the driver reports at that moment."""
+    records the recorders made during it, what the driver reports at that moment, and which of the
+    transport_options objects the user passed (all objects of the history) no longer are what they were."""
     drivers = []
     dial.restore_process_state()
-    for c in h["objects"]:
+    uopts = user_options(root, h)
+    # what the user wrote, taken before any constructor has seen the object
+    users = [{"obj": o, "was": copy.deepcopy(o)} for o in uopts]
+    for c, o in zip(h["objects"], uopts):
         os.environ["HOME"] = os.path.join(root, c["home"])
         reset_state()
         kw = kwargs_of(root, c)
+        kw.pop("transport_options", None)
+        if o is not None:
+            kw["transport_options"] = o
         kw["auth_password"] = "pw"
         drivers.append(driver_class(c)(**kw))
+    if users_out is not None:
+        users_out.extend(users)
+    last = [copy.deepcopy(u["was"]) for u in users]      # a constructor that wrote into the object shows at the first step
     steps = []
     for op, i in h["ops"]:
         c, d = h["objects"][i], drivers[i]
@@ -931,12 +1077,20 @@ def run_history(root, h, loop):
             exc = dial.do_close(d.transport)
         else:
             d.transport._build_open_cmd()
-        steps.append({"op": op, "i": i, "records": [[k, p] for k, p in recs], "exc": exc, "reported": reported_of(d)})
+        changed = []
+        for j, u in enumerate(users):
+            if u["obj"] != last[j]:
+                changed.append([j, u["was"], copy.deepcopy(u["obj"])])
+                last[j] = copy.deepcopy(u["obj"])
+        steps.append({"op": op, "i": i, "records": [[k, p] for k, p in recs], "exc": exc, "reported": reported_of(d),
+                      "options_given": users[i]["was"], "options_changed": changed})
     return steps, drivers
 
 
-def dial_oracle(root, c, r, recs, exc, first_open, stats=None):
-    """one open() of one object: every recorded connect / spawn / auth call against what THAT driver reports"""
+def dial_oracle(root, c, r, recs, exc, first_open, stats=None, given=None):
+    """one open() of one object: every recorded connect / spawn / auth call against what THAT driver reports (and,
+    given = the transport_options the user wrote for this object: the options addressed to the transport are in the
+    call as written)"""
     bad = []
     t = c["transport"]
     os.environ["HOME"] = os.path.join(root, c["home"])
@@ -960,6 +1114,11 @@ def dial_oracle(root, c, r, recs, exc, first_open, stats=None):
                 bad.append(("dial-foreign-spawn", "a %s transport spawned %r" % (t, p["argv"])))
                 continue
             bad += [("dial-" + k, m) for k, m in argv_oracle(c, r, p["argv"])]
+            ex = (given or {}).get("open_cmd", [])
+            ex = [ex] if isinstance(ex, str) else list(ex)
+            if ex and not (isinstance(p["argv"], list) and p["argv"][-len(ex):] == ex):
+                bad.append(("dial-user-option", "the user's open_cmd arguments %r are not the end of the ssh command line %r"
+                            % (ex, p["argv"])))
         elif kind in ("socket", "open_connection"):
             n_main += 1
             cmp("dial-host", kind + " host", p["host"], r["host"])
@@ -1008,6 +1167,10 @@ def dial_oracle(root, c, r, recs, exc, first_open, stats=None):
             if kw.get("config", dial.ABSENT) != r["cfg"]:
                 bad.append(("dial-config", "asyncssh config=%r, the driver reports ssh_config_file %r"
                             % (kw.get("config", dial.ABSENT), r["cfg"])))
+            for ok, ov in sorted(((given or {}).get("asyncssh") or {}).items()):
+                if ok not in kw or kw[ok] != ov:
+                    bad.append(("dial-user-option", "the user's asyncssh option %s=%r reaches asyncssh.connect as %r"
+                                % (ok, ov, kw.get(ok, dial.ABSENT))))
         else:
             bad.append(("dial-unknown-record", "%r" % ((kind, p),)))
     if t in ("system", "telnet", "asynctelnet", "asyncssh") and n_main != 1:
@@ -1015,18 +1178,25 @@ def dial_oracle(root, c, r, recs, exc, first_open, stats=None):
     return bad
 
 
-def check_history(root, h, loop, stats=None):
+def check_history(root, h, loop, stats=None, users_out=None):
     """-> (steps, drivers, failures [(step index, kind, msg)])"""
-    steps, drivers = run_history(root, h, loop)
+    steps, drivers = run_history(root, h, loop, users_out)
     fails, opened = [], set()
     for n, st in enumerate(steps):
+        for j, was, now in st["options_changed"]:
+            # whatever the operation: the user's object is the user's
+            fails.append((n, "dial-options-mutated", "object %d of %d [%s]: %s() changed the transport_options object the user "
+                          "passed to object %d: was %r, is now %r" % (st["i"], len(h["objects"]), h["objects"][st["i"]]["transport"],
+                                                                    st["op"], j, was, now)))
+        if stats is not None:
+            stats["options_objects_compared"] += sum(1 for c in h["objects"] if c.get("topts") is not None or c["extra"] is not None)
         if st["op"] != "open":
             if st["exc"]:
                 fails.append((n, "dial-%s-raised" % st["op"], "%s() raised %s" % (st["op"], st["exc"])))
             continue
         c = h["objects"][st["i"]]
         recs = [(k, p) for k, p in st["records"]]
-        for kind, msg in dial_oracle(root, c, st["reported"], recs, st["exc"], st["i"] not in opened, stats):
+        for kind, msg in dial_oracle(root, c, st["reported"], recs, st["exc"], st["i"] not in opened, stats, st["options_given"]):
             fails.append((n, kind, "object %d of %d [%s]: %s" % (st["i"], len(h["objects"]), c["transport"], msg)))
         opened.add(st["i"])
     return steps, drivers, fails
@@ -1039,21 +1209,25 @@ def shrink_history(root, h, kind, loop):
             return any(k == kind for _, k, _ in check_history(root, x, loop)[2])
         except Exception:  # noqa
             return False
-    cur = {"objects": list(h["objects"]), "ops": [list(o) for o in h["ops"]]}
+    cur = {"objects": list(h["objects"]), "ops": [list(o) for o in h["ops"]],
+           "share": [[m, list(ms)] for m, ms in h.get("share", [])]}
     changed = True
     while changed:
         changed = False
         for n in range(len(cur["ops"]) - 1, -1, -1):
-            cand = {"objects": cur["objects"], "ops": cur["ops"][:n] + cur["ops"][n + 1:]}
+            cand = dict(cur, ops=cur["ops"][:n] + cur["ops"][n + 1:])
             if cand["ops"] and fails(cand):
                 cur, changed = cand, True
         for j in range(len(cur["objects"]) - 1, -1, -1):
             if len(cur["objects"]) < 2:
                 break
             ops = [[o, i - (1 if i > j else 0)] for o, i in cur["ops"] if i != j]
-            cand = {"objects": cur["objects"][:j] + cur["objects"][j + 1:], "ops": ops}
+            share = [[m, [i - (1 if i > j else 0) for i in ms if i != j]] for m, ms in cur["share"]]
+            cand = {"objects": cur["objects"][:j] + cur["objects"][j + 1:], "ops": ops, "share": [g for g in share if g[1]]}
             if ops and fails(cand):
                 cur, changed = cand, True
+    if not cur["share"]:
+        del cur["share"]
     return cur
 
 
@@ -1119,24 +1293,93 @@ def kw_terms(root, h, steps, drivers):
     return out
 
 
+def as_term(h, steps, drivers, users):
+    """the asyncssh objects of a history as the transports hold them, each with the ADDRESS of the dict its open()
+    reads as transport_options["asyncssh"] (identity of the held object: two objects holding one dict get one address),
+    the dicts as the user wrote them, the opens that reached connect, the dicts afterwards, the host / port / username
+    keywords of the recorded calls — for model/OpenHist.v as_run as_open"""
+    def kdict(d):
+        hv, pv, uv = d.get("host"), d.get("port"), d.get("username")
+        if not ((hv is None or isinstance(hv, str)) and (uv is None or isinstance(uv, str))
+                and (pv is None or (isinstance(pv, int) and not isinstance(pv, bool) and pv >= 0))):
+            return None
+        return "(mkK %s %s %s)" % (coq_opt(hv, coq_str), coq_opt(pv, str), coq_opt(uv, coq_str))
+    idx, objs, heap0, heap1, addr = {}, [], [], [], {}
+    for i, (c, d) in enumerate(zip(h["objects"], drivers)):
+        if c["transport"] != "asyncssh":
+            continue
+        hd = held_of(d)
+        if (hd is None or not all(isinstance(hd[k], str) for k in ("host", "user", "key", "cfg", "kh"))
+                or not isinstance(hd["port"], int) or isinstance(hd["port"], bool) or hd["port"] < 0):
+            return None
+        inner = d.transport._base_transport_args.transport_options.get("asyncssh")
+        if inner is None:
+            a = len(heap0)                       # no dict: open() reads a fresh empty one
+            heap0.append("kw_empty")
+            heap1.append("kw_empty")
+        else:
+            uo = users[i]["obj"]
+            if not (isinstance(inner, dict) and isinstance(uo, dict) and uo.get("asyncssh") is inner):
+                return None                      # the transport holds a dict that is not the user's
+            if id(inner) not in addr:
+                k0, k1 = kdict(users[i]["was"]["asyncssh"]), kdict(inner)
+                if k0 is None or k1 is None:
+                    return None
+                addr[id(inner)] = len(heap0)
+                heap0.append(k0)
+                heap1.append(k1)
+            a = addr[id(inner)]
+        idx[i] = len(objs)
+        objs.append("(mkAO (mkB %s %d) (mkP %s %s %s %s %s) %d%%nat)" % (
+            coq_str(hd["host"]), hd["port"], coq_str(hd["user"]), coq_str(hd["key"]), coq_bool(hd["strict"]),
+            coq_str(hd["cfg"]), coq_str(hd["kh"]), a))
+    if not objs:
+        return None
+    opens, seen = [], []
+    for st in steps:
+        if st["i"] not in idx or st["op"] != "open":
+            continue
+        calls = [p for k, p in st["records"] if k == "asyncssh_connect"]
+        if not calls:
+            continue                             # refused before the dial (strict key)
+        if len(calls) != 1 or calls[0]["args"]:
+            return None
+        k = kdict(calls[0]["kwargs"])
+        if k is None:
+            return None
+        opens.append("%d%%nat" % idx[st["i"]])
+        seen.append("(%d%%nat, %s)" % (idx[st["i"]], k))
+    if not opens:
+        return None
+    return "((%s : list as_obj), (%s : uheap), (%s : list nat), (%s : uheap), (%s : list (nat * conn_kwargs)))" % (
+        coq_list(objs), coq_list(heap0), coq_list(opens), coq_list(heap1), coq_list(seen))
+
+
 def run_dial_suite(rep, root, rng, header_dial, oracle_fail_out):
     """returns coverage dict; appends violations itself (with a shrunk history as the replay input)"""
     thorough = rep.tier == "thorough"
     hists = structured_histories()
     n_struct = len(hists)
     hists += [gen_history(rng, root) for _ in range(1500 if thorough else 170)]
+    # transport_options objects shared between the objects of a history (drawn after the above: same stream as before)
+    sh = shared_histories()
+    n_struct += len(sh)
+    hists += sh + [gen_shared_history(rng, root) for _ in range(400 if thorough else 40)]
     stats = {"histories": len(hists), "structured": n_struct, "class_or_module_level_containers_reset": dial.snapshot_process_state(), "objects": 0, "opens": 0, "reopens": 0, "builds": 0,
              "by_transport": {}, "objects_per_history": {}, "records": {}, "not_reached_strict": 0,
              "asyncssh_resolved": 0, "asyncssh_unresolved": 0, "asyncssh_no_username": 0,
-             "asyncssh_no_username_config_has_user": 0, "failures": 0, "constructor_raised": 0}
-    hterms, kterms, reported_kinds = [], [], set()
+             "asyncssh_no_username_config_has_user": 0, "failures": 0, "constructor_raised": 0,
+             "shared_options": {"histories": 0, "by_mode": {}, "by_transport": {}, "opens_of_a_later_member": 0},
+             "options_objects_compared": 0, "model_shared_dict_skipped": 0}
+    hterms, kterms, aterms, reported_kinds = [], [], [], set()
     t_start = time.time()
     loop = dial.Loop()
     try:
         with dial.patched():
             for h in hists:
                 try:
-                    steps, drivers, fails = check_history(root, h, loop, stats)
+                    users = []
+                    steps, drivers, fails = check_history(root, h, loop, stats, users)
                 except Exception as e:  # noqa  (a constructor refused a valid combination: the resolve suite reports that)
                     stats["constructor_raised"] += 1
                     rep.notes.append("dial suite: history not run (%s: %s) %r" % (type(e).__name__, e, h))
@@ -1167,6 +1410,21 @@ def run_dial_suite(rep, root, rng, header_dial, oracle_fail_out):
                 if ht is not None:
                     hterms.append(ht)
                 kterms += kw_terms(root, h, steps, drivers)
+                if any(c["transport"] == "asyncssh" for c in h["objects"]):
+                    at = as_term(h, steps, drivers, users)
+                    if at is not None:
+                        aterms.append(at)
+                    else:
+                        stats["model_shared_dict_skipped"] += 1
+                for mode, members in h.get("share", []):
+                    so = stats["shared_options"]
+                    so["histories"] += 1
+                    so["by_mode"][mode] = so["by_mode"].get(mode, 0) + 1
+                    t0 = h["objects"][members[0]]["transport"]
+                    so["by_transport"][t0] = so["by_transport"].get(t0, 0) + 1
+                    first_opened = next((st["i"] for st in steps if st["op"] == "open" and st["i"] in members), None)
+                    so["opens_of_a_later_member"] += sum(1 for st in steps if st["op"] == "open" and st["i"] in members
+                                                         and st["i"] != first_opened)
                 if fails:
                     stats["failures"] += 1
                 for n, kind, msg in fails:
@@ -1184,24 +1442,28 @@ def run_dial_suite(rep, root, rng, header_dial, oracle_fail_out):
     finally:
         loop.close()
     stats["wall_s_python"] = round(time.time() - t_start, 2)
-    if stats["asyncssh_resolved"] == 0 or not hterms:
-        rep.broken.append("dial suite: nothing resolved / no system history (vacuous)")
+    if stats["asyncssh_resolved"] == 0 or not hterms or not aterms or not stats["shared_options"]["opens_of_a_later_member"]:
+        rep.broken.append("dial suite: nothing resolved / no system history / no shared options (vacuous)")
     # one evaluation for both kinds of case; elaborating the terms is what costs, so they are dealt by size into
     # ~8 shards of similar weight (the shards run in parallel)
     tagged = sorted([(len(x), 0, i, "(inl %s)" % x) for i, x in enumerate(hterms)]
-                    + [(len(x), 1, i, "(inr %s)" % x) for i, x in enumerate(kterms)], reverse=True)
+                    + [(len(x), 1, i, "(inr (inl %s))" % x) for i, x in enumerate(kterms)]
+                    + [(len(x), 2, i, "(inr (inr %s))" % x) for i, x in enumerate(aterms)], reverse=True)
     n_sh = 16 if thorough else 8
     order = [tg for k in range(n_sh) for tg in tagged[k::n_sh]]
     allb, alog = common.eval_cases(rep.workdir, "cases_c17_dial", header_dial, [tg[3] for tg in order], "chk_dial",
                                    shard=max(1, -(-len(order) // n_sh)))
     hb = None if allb is None else [order[i][2] for i in allb if order[i][1] == 0]
     kb = None if allb is None else [order[i][2] for i in allb if order[i][1] == 1]
+    ab = None if allb is None else [order[i][2] for i in allb if order[i][1] == 2]
     stats["wall_s_total"] = round(time.time() - t_start, 2)
     stats["model_history_cases"] = len(hterms)
     stats["model_history_disagreements"] = None if hb is None else len(hb)
     stats["model_kwargs_cases"] = len(kterms)
     stats["model_kwargs_disagreements"] = None if kb is None else len(kb)
-    for what, b, log in (("history", hb, alog), ("asyncssh keywords", kb, alog)):
+    stats["model_shared_dict_cases"] = len(aterms)
+    stats["model_shared_dict_disagreements"] = None if ab is None else len(ab)
+    for what, b, log in (("history", hb, alog), ("asyncssh keywords", kb, alog), ("asyncssh user-dict history", ab, alog)):
         if b is None:
             rep.broken.append("dial suite: model evaluation failed (%s)" % what)
             rep.notes.append(log)
@@ -1397,7 +1659,11 @@ def run(rep):
                 "paramiko x username none/explicit x config none / without User / with User / with a User only the library's reader "
                 "accepts / Host * / the user's own, multi-device system shapes, two-object re-open for every transport) + random "
                 "(1-4 objects, 50% all-system, 40% of same-transport neighbours differ in one or two arguments only; each object opened "
-                "in a shuffled order, then random close / re-open / direct _build_open_cmd), each from the state of a fresh process")
+                "in a shuffled order, then random close / re-open / direct _build_open_cmd), each from the state of a fresh process; "
+                "shared-options histories: system / paramiko / asyncssh x option dicts x 2 and 3 devices (differing in host, port, user, "
+                "key, strictness, config) x ONE transport_options object / distinct outer dicts with the same inner objects / "
+                "equal-but-distinct copies (control) x every order of opens, then close + re-open of the first one opened; + random "
+                "ones (any transport, random devices and option dicts, all or two of three objects sharing, random close / re-open)")
     rep.extra_assumptions += [
         "model of OpenSSH's command-line grammar (coq/model/SshArgv.v ssh_parse): hand-written from ssh.c; confronted with an "
         "independent Python getopt and with the installed `ssh -G` on generated argvs, not verified",
@@ -1470,6 +1736,8 @@ def replay_dial(r):
     root = make_fixture(workdir)
     dial.snapshot_process_state()
     h = {"objects": [full_case(c) for c in r["history"]["objects"]], "ops": r["history"]["ops"]}
+    if r["history"].get("share"):
+        h["share"] = r["history"]["share"]
     loop = dial.Loop()
     try:
         with dial.patched():
@@ -1479,6 +1747,9 @@ def replay_dial(r):
     for i, c in enumerate(h["objects"]):
         print("object %d : %s" % (i, json.dumps(kwargs_of(root, c), sort_keys=True, default=repr)))
         print("  reports: %s" % json.dumps(reported_of(drivers[i]), sort_keys=True, default=repr))
+    for mode, members in h.get("share", []):
+        print("transport_options of objects %s: %s" % (members, {"same": "ONE dict object", "inner": "distinct dicts holding the SAME "
+              "inner objects", "copies": "equal but distinct copies"}[mode]))
     for n, st in enumerate(steps):
         print("step %d   : %s(object %d)%s" % (n, st["op"], st["i"], " raised " + st["exc"] if st["exc"] else ""))
         for k, p in st["records"]:
@@ -1544,6 +1815,17 @@ MANIFEST = {
             "by recorders; each recorded call (absent keywords resolved by asyncssh.SSHClientConnectionOptions itself / the real paramiko "
             "signatures) is compared with what the opened driver reports, every history starts from the class- and module-level state of a "
             "fresh process; the system histories and the asyncssh keywords are also run through the model by vm_compute. "
+            "Shared user options: asyncssh_history_per_object / asyncssh_history_reported / asyncssh_shared_dict_eq_copies (model/OpenHist.v "
+            "part 3: asyncssh objects each holding the ADDRESS of the user dict passed as transport_options['asyncssh'], so several may hold "
+            "ONE dict; over any order of opens and re-opens the user's dicts are afterwards what they were, every connect call is a function "
+            "of the opened object's own record and its dict as the user wrote it — own host / port / username when the dict sets none of them "
+            "— and devices given one dict connect exactly as devices given each its own copy; refuted by witness for a transport that "
+            "setdefault()s its arguments into the user's dict). Dial suite on them: 2-3 drivers constructed with the same transport_options "
+            "object, with distinct outer dicts holding the same inner objects, and with equal-but-distinct copies (control), for system / "
+            "paramiko / asyncssh, in every order of opens + re-open of the first; every recorded call against what THAT driver reports, the "
+            "user's transport_options object deep-compared after every operation with a copy taken before construction, the user's own "
+            "asyncssh options / open_cmd arguments present in the call as written; the asyncssh ones (address = identity of the dict the "
+            "transport object holds) are run through as_run by vm_compute, dicts afterwards included. "
             "partial: what OpenSSH does with the argv is a hand model of ssh.c's option grammar — observed to agree "
             "with an independent Python getopt, with the installed `ssh -G` and with the argv a stand-in ssh binary receives, not proved.",
     "note": "Trusted: Coq kernel + vm_compute; hand models coq/model/Resolve.v, SshArgv.v, OpenHist.v (tied by correspondence only); gen/gen_resolve.py; "
@@ -1553,11 +1835,17 @@ MANIFEST = {
             "them), ssh's interpretation of the destination string itself (user@host, ssh:// URIs), negative / bool ports, the optional ssh2 "
             "package (constructor path only, through a stand-in module when it is not installed). Dial suite, oracle-only (no Coq model): the "
             "paramiko / telnet / asynctelnet connect and auth calls, asyncssh client_keys / known_hosts / config keywords, histories that mix "
-            "transports (the model covers the system objects of a history and asyncssh host / port / username). The recorders end open() at the "
+            "transports (the model covers the system objects of a history and asyncssh host / port / username); of the shared "
+            "transport_options histories the model covers the asyncssh dict (host / port / username keys; the site-wide keys pass through "
+            "unmodelled) — sharing for system (open_cmd list, ptyprocess dict) and paramiko (enable_rsa2), the 'unchanged after open()' "
+            "comparison for those, and 'the user's options are in the call' are oracle-only. Not covered: user asyncssh options that "
+            "themselves name host / port / username / client_keys (they override what the driver reports by design; kw_free is the "
+            "theorem's premise), ptyprocess rows / cols / echo values, transport_options shared across different transports. The recorders end open() at the "
             "connect call (paramiko: never authenticated; asyncssh: PermissionDenied; asynctelnet: ConnectionRefusedError), so parameters used "
             "only after a successful login are not observed; strict-key cases whose host is not in the known-hosts file stop before the dial "
             "and are counted, not checked. Driver.open() (channel authentication, on_open) is not run, only transport.open().",
     "technique": "Coq case analysis over the constructor model with an explicit environment + getopt-model proof for the argv; vm_compute "
                  "correspondence against the real constructors; independent oracle incl. real `ssh -G` and a stand-in ssh binary; "
-                 "multi-object open histories with recording stand-ins for every connect entry point, absent keywords resolved by the library",
+                 "multi-object open histories with recording stand-ins for every connect entry point, absent keywords resolved by the library; "
+                 "aliasing of user-owned option dicts between objects as addresses in a model heap, deep comparison of the user's objects",
 }
